@@ -16,7 +16,9 @@ def run(run):
     run.rule = ('cases = GraphSM behaviours containing DeepCopy followed by mutations (remove node, compromise, touch tags / '
                 'extras / TTC / labels, add node, remove attacker) of either slot; non-trivial = at least one action '
                 'after the copy; distinct by action sequence')
-    gsm.mc_slice(run, 'C14', 6 if quick else 8, timeout=1800, depth=5 if quick else 7, must=('DeepCopy', 'Touch'))
+    gsm.mc_slice(run, 'C14', 6, timeout=1800, depth=5, must=('DeepCopy', 'Touch'))
     gsm.bfs_slice(run, 'C14', 4 if quick else 5, keep=KEEP)
     gsm.simulate(run, 'C14', 9, 3000 if quick else 50000, keep=KEEP, free=False, timeout=300 if quick else 1800)
     gsm.simulate(run, 'C14', 12, 1500 if quick else 30000, keep=KEEP, timeout=300 if quick else 1800)
+    if not quick:
+        gsm.mc_slice(run, 'C14', 8, timeout=1800, depth=7, must=('DeepCopy', 'Touch'))          # larger design check last
